@@ -212,6 +212,45 @@ func VH_C12_suci() {
 	vrt.Assert(err3 == nil && s3 == want, "the identity octets still render to the same SUCI after the getters ran")
 }
 
+// protected SUCIs at their real sizes: ECIES profile A output is 32 + n + 8 octets, profile B 33 + n + 8 (n <= 5 MSIN
+// octets: up to 46), operator-specific schemes anything the element can carry: outputs of 40..48, 100 and 200 octets
+// (every non-null scheme value; first and last two octets symbolic) render like the short ones
+func VH_C12_suci_long() {
+	three := vrt.Bool("threeDigitMnc")
+	oct, mcc, mnc := c12plmn(three)
+	ks := []int{40, 41, 42, 43, 44, 45, 46, 47, 48, 100, 200}
+	k := ks[vrt.Choose("outputSel", 0, len(ks)-1)]
+	buf := make([]byte, 8+k)
+	buf[0] = 0x01
+	copy(buf[1:4], oct[:])
+	ri := []byte{c12digit("ri0"), c12digit("ri1"), c12digit("ri2"), c12digit("ri3")}
+	ritxt := string([]byte{'0' + ri[0], '0' + ri[1], '0' + ri[2], '0' + ri[3]})
+	buf[4] = ri[1]<<4 | ri[0]
+	buf[5] = ri[3]<<4 | ri[2]
+	scheme := vrt.U8("scheme") & 0x0f
+	vrt.Assume(scheme != 0)
+	buf[6] = scheme
+	buf[7] = vrt.U8("hnpki")
+	// the length is the dimension explored here: the first and last two octets are symbolic, the ones in between a fixed
+	// pattern (all of them symbolic made z3 give up on the 400-character text comparison)
+	out := make([]byte, k)
+	for i := range out {
+		out[i] = byte(i*7 + 3)
+	}
+	edge := vrt.Bytes("out", 4)
+	out[0], out[1], out[k-2], out[k-1] = edge[0], edge[1], edge[2], edge[3]
+	copy(buf[8:], out)
+	want := "suci-0-" + mcc + "-" + mnc + "-" + ritxt + "-" + string([]byte{c12hex(scheme)}) + "-" + fmt.Sprintf("%d", buf[7]) + "-" + c12hexOf(out)
+	suci, plmn, err := SuciToStringWithError(buf)
+	vrt.Assert(err == nil, "a protected SUCI with a scheme output of realistic size is accepted")
+	vrt.Assert(plmn == mcc+mnc, "SUCI PLMN id (long scheme output)")
+	vrt.Assert(suci == want, "SuciToStringWithError renders a long scheme output in full")
+	mid := &nasType.MobileIdentity5GS{Len: uint16(len(buf)), Buffer: buf}
+	vrt.Assert(mid.GetSUCI() == want, "MobileIdentity5GS.GetSUCI agrees with SuciToString (long scheme output)")
+	s2, _ := SuciToString(buf)
+	vrt.Assert(s2 == want, "SuciToString agrees with SuciToStringWithError (long scheme output)")
+}
+
 func VH_C12_suci_nai() {
 	k := vrt.Choose("k", 1, 6)
 	buf := make([]byte, 1+k)
